@@ -154,7 +154,11 @@ SolverUnsat(q, core) ==
     /\ queries' = queries \ {q}
     /\ UNCHANGED <<alive, freeIds, cur, held, pinned, tvpinned, test>>
 
-(* sat / unknown / error / unsat whose core could not be parsed: nothing is stored. *)
+(* sat / unknown / error / unsat whose core could not be parsed, or whose core is the   *)
+(* empty list `()` (a solver that does not track named assertions: the guard           *)
+(* `if solver_output.unsat_core:`): nothing is stored.  An empty core would be a subset *)
+(* of every later query - HitEnabled for all of them (exercised from C16 through        *)
+(* harness/coreless_solver.py and from C05 with the reply kind unsat_nocore).           *)
 SolverNoCore(q) ==
     /\ q \in queries /\ q.st = "solving"
     /\ queries' = queries \ {q}
